@@ -57,6 +57,9 @@ def write_g2(path, recs):
 def run(tier, seed, replay=None):
     t0_ = time.time()
     V = C.Verdict(PID, tier, seed)
+    # the ASCII formats write a fixed number of decimals of a picture/file-wide frame: an object whose extent is 1e-6 of its
+    # distance from the origin is below that resolution (SVG collapses it to a point the reader cannot parse back)
+    O.OFFSET_PROB = 0.0
     l0 = C.l0_check(PID, thorough=(tier == 'thorough'))
     build_pyx.load_splipy()
     import numpy as np
@@ -325,6 +328,12 @@ def run(tier, seed, replay=None):
         for it in range(reps):
             dim = rng.choice([3, 3, 2])
             s = O.gen_obj(rng, pardim=2, kinds=['open'], nint_max=2, pmax=3, dim=dim, rational=rng.random() < 0.3)
+            if it % 4 >= 2:
+                # a collapsed edge (a pole, as on spheres and radial discs): all control points of the u = start edge coincide,
+                # which gives facets of zero area -- they are facets of the file like any other
+                n1_ = O.nfun(s['bases'][1])
+                for j_ in range(n1_):
+                    s['cps'][j_] = list(s['cps'][0])
             o = O.make_impl(s)
             binary = bool(it % 2)
             n = rng.choice([None, None, 4, (3, 5)])
